@@ -390,8 +390,7 @@ func (n *Net) Deliver(m *Msg) error {
 func (n *Net) WaitStable(rounds int) {
 	last := -1
 	same := 0
-	busyChecks := 0
-	for i := 0; i < 20000 && same < rounds; i++ {
+	for i := 0; i < 2000 && same < rounds; i++ {
 		n.mu.Lock()
 		cur := n.enqueued*1000 + n.active
 		n.mu.Unlock()
@@ -402,13 +401,21 @@ func (n *Net) WaitStable(rounds int) {
 			last = cur
 		}
 		time.Sleep(500 * time.Microsecond)
-		if same >= rounds && busyChecks < 400 && n.gossipersBusy() {
-			// on a loaded machine a gossiper goroutine that is about to send may not have run for milliseconds: the
-			// counters stand still although work is in progress. Stable only when no gossiper goroutine is runnable.
-			busyChecks++
-			same = 0
-			time.Sleep(5 * time.Millisecond)
+	}
+}
+
+// WaitSent is for the moment after an item was handed to a node's gossiper, when the harness is going to read what that
+// node has put in flight: besides standing counters it requires that no goroutine of a gossiper (or hand-over goroutine
+// of the juggler) is running or runnable, read from a goroutine dump. On a loaded machine the origin's goroutine may not
+// have run for milliseconds; three milliseconds of silence do not mean 'sent'. Bounded (at most about a second of
+// extra waiting); what is decided afterwards is decided on the event log.
+func (n *Net) WaitSent() {
+	for k := 0; k < 100; k++ {
+		n.WaitStable(6)
+		if !n.gossipersBusy() {
+			return
 		}
+		time.Sleep(5 * time.Millisecond)
 	}
 }
 
